@@ -50,10 +50,12 @@ type Net struct {
 	// auto mode: per-message delay drawn uniformly from [latency, latency+jitter]
 	jitter time.Duration
 	rng    *rand.Rand
+	// canonical snapshots (by name) that injected InstallSnapshot requests cut their chunks from
+	canon map[string][]byte
 }
 
 func newNet(c *Cluster) *Net {
-	return &Net{c: c, rpcs: map[int]*RPC{}, blocked: map[[2]string]bool{}, maxPerLink: 4, hold: map[[2]string]bool{}, rng: rand.New(rand.NewSource(1))}
+	return &Net{c: c, rpcs: map[int]*RPC{}, blocked: map[[2]string]bool{}, maxPerLink: 4, hold: map[[2]string]bool{}, rng: rand.New(rand.NewSource(1)), canon: map[string][]byte{}}
 }
 
 func (nt *Net) held(from, to string) bool {
